@@ -556,9 +556,10 @@ func (vfs *MemFS) OpenFile(name string, flag int, perm fs.FileMode) (avfs.File, 
 
 		avfs.VerifBeforeLock(&parent.mu, true)
 		parent.mu.Lock()
-		defer parent.mu.Unlock()
 
 		if om&avfs.OpenWrite == 0 || !parent.checkPermission(avfs.OpenWrite|avfs.OpenLookup, vfs.User()) {
+			parent.mu.Unlock()
+
 			return (*MemFile)(nil), &fs.PathError{Op: op, Path: name, Err: vfs.err.PermDenied}
 		}
 
@@ -575,7 +576,16 @@ func (vfs *MemFS) OpenFile(name string, flag int, perm fs.FileMode) (avfs.File, 
 				openMode: om,
 			}
 
+			parent.mu.Unlock()
+
 			return f, nil
+		}
+
+		parent.mu.Unlock()
+
+		if _, ok := child.(*symlinkNode); ok {
+			// A symbolic link was created since the path was resolved : resolve it again.
+			return vfs.OpenFile(name, flag, perm)
 		}
 	}
 
